@@ -15,7 +15,11 @@ from protolib import *
 
 KEY_BUS = "bus-nonblock-send-eagain"
 KEY_RESP = "respondent-nb-send-eagain"
+KEY_REP = "rep-writable-while-busy"
+KEY_MSGQ = "msgq-get-leaves-writers-blocked"
 KNOWN_TEXT = {
+    KEY_REP: "rep.c: the send descriptor stays raised while the pipe the socket would reply on is busy (made busy by another context, or a request of a busy pipe taken while the descriptor was still raised for an earlier one): NONBLOCK send returns NNG_EAGAIN / a blocking send waits",
+    KEY_MSGQ: "msgqueue.c nni_msgq_aio_get runs only the reader queue: after a reader took a buffered message blocked writers stay blocked although there is room, the send descriptor is raised (len < cap) and a NONBLOCK send is refused because a writer is ahead (raw REQ with a send buffer)",
     KEY_BUS: "bus.c bus0_sock_send: NONBLOCK send returns NNG_EAGAIN although the send descriptor is raised and a blocking send succeeds at once",
     KEY_RESP: "respond.c resp0_ctx_send calls nni_aio_start first: NONBLOCK send returns NNG_EAGAIN with the pipe idle (descriptor raised), and the descriptor it cleared stays down although a blocking send succeeds at once",
 }
@@ -63,17 +67,63 @@ def words(rng, n):
     return "".join("%02x%06x" % (rng.randrange(0x80), rng.randrange(1 << 24)) for _ in range(n))
 
 
+class Session:
+    """the extracted model as an interactive oracle for the GENERATOR only (which ids are on the wire, which
+    descriptor is up, which pipe is busy): it lets the scripts aim at replies that match, queues that are full and
+    descriptors that are raised.  Verdicts never come from here."""
+    def __init__(self, binpath):
+        import subprocess
+        self.p = subprocess.Popen([binpath], stdin=subprocess.PIPE, stdout=subprocess.PIPE, text=True, bufsize=1)
+        self.k = 0
+
+    def reset(self):
+        self.k += 1
+        self.p.stdin.write("mark %d\n" % self.k); self.p.stdin.flush()
+        self.p.stdout.readline()
+
+    def do(self, line):
+        self.p.stdin.write(line + "\n"); self.p.stdin.flush()
+        return parse_line(self.p.stdout.readline().rstrip("\n"))
+
+    def close(self):
+        try:
+            self.p.stdin.close(); self.p.wait(timeout=5)
+        except Exception:
+            self.p.kill()
+
+
 class Gen:
-    def __init__(self, rng, proto):
-        self.rng, self.proto, self.d = rng, proto, P[proto]
+    def __init__(self, rng, proto, sess):
+        self.rng, self.proto, self.d, self.sess = rng, proto, P[proto], sess
         self.L = []
-        self.npipes = self.naio = self.nmsg = self.nreq = 0
+        self.npipes = self.naio = self.nmsg = 0
         self.ctxs = []
         self.nctx = 0
         self.now = 0
         self.deadlines = []
-        self.topics = []
         self.ttl = 8
+        self.o = None          # the model's last observation
+        self.rids = []         # request / survey id tokens seen on the wire (model), latest last
+        sess.reset()
+
+    def emit(self, line):
+        self.L.append(line)
+        self.o = self.sess.do(line)
+        if self.o:
+            for i, pp in self.o["pipes"].items():
+                m = re.match(r"\[R(\d+)\]", pp.get("tx") or "")
+                if m and int(m.group(1)) not in self.rids:
+                    self.rids.append(int(m.group(1)))
+        return self.o
+
+    def fds(self):
+        return self.o["poll"].get(0, ("x", "x")) if self.o else ("x", "x")
+
+    def open_pipes(self):
+        return [i for i, pp in (self.o["pipes"].items() if self.o else []) if pp["st"] == "o"]
+
+    def busy_pipes(self):
+        return [i for i, pp in (self.o["pipes"].items() if self.o else []) if pp["st"] == "o" and pp.get("nt", 0) > 0]
 
     def body(self, tag):
         self.nmsg += 1
@@ -87,15 +137,16 @@ class Gen:
         return self.rng.choice(["s0", "s0"] + self.ctxs) if self.ctxs else "s0"
 
     # ---- what the application hands to a send (header is only meaningful on raw sockets)
-    def send_args(self):
+    def send_args(self, valid=False):
         rng, pr = self.rng, self.proto
         hdr = "-"
+        ops = self.open_pipes()
         if pr == "req0_raw":
-            hdr = words(rng, rng.choice([0, 0, 1])) + "%08x" % (0x80000000 | rng.randrange(1 << 31)) if rng.random() < 0.9 else "-"
+            hdr = (words(rng, rng.choice([0, 0, 1])) + "%08x" % (0x80000000 | rng.randrange(1 << 31))) if (valid or rng.random() < 0.9) else "-"
         elif pr in ("rep0_raw", "respondent0_raw"):
             k = rng.random()
-            if k < 0.8 and self.npipes:
-                hdr = "[P%d]" % rng.randrange(self.npipes) + words(rng, rng.choice([0, 0, 1])) + "%08x" % (0x80000000 | rng.randrange(1 << 31))
+            if (valid or k < 0.8) and ops:
+                hdr = "[P%d]" % rng.choice(ops) + words(rng, rng.choice([0, 0, 1])) + "%08x" % (0x80000000 | rng.randrange(1 << 31))
             elif k < 0.9:
                 hdr = "%08x" % rng.choice([0, 0x7fffff01, 0xdeadbeef])
             else:
@@ -104,11 +155,11 @@ class Gen:
             hdr = rng.choice(["%08x" % rng.randrange(0x80000000, 0xffffffff), "-"])
         elif pr == "pair1_raw":
             k = rng.random()
-            hdr = "%08x" % rng.choice([0, 1, 2, self.ttl]) if k < 0.85 else rng.choice(["-", "000000ff", "00000100", "0000000100000002", "00"])
+            hdr = "%08x" % rng.choice([0, 1, 2, self.ttl]) if (valid or k < 0.85) else rng.choice(["-", "000000ff", "00000100", "0000000100000002", "00"])
         elif pr == "bus0_raw":
             k = rng.random()
-            hdr = "-" if k < 0.5 else ("[P%d]" % rng.randrange(self.npipes) if (k < 0.9 and self.npipes) else rng.choice(["00", "0000000100000002", "7fffffff"]))
-        elif rng.random() < 0.05:
+            hdr = "-" if k < 0.5 else ("[P%d]" % rng.choice(ops) if (k < 0.9 and ops) else rng.choice(["00", "7ffffff17ffffff2", "7fffffff"]))
+        elif rng.random() < 0.05 and not valid:
             hdr = rng.choice(["00000005", "01"])          # a stray header on a cooked socket
         return hdr, self.body("aa")
 
@@ -118,25 +169,25 @@ class Gen:
         b = self.body("bb")
         if pr in ("req0", "surveyor0"):
             k = rng.random()
-            if k < 0.75 and self.nreq:
-                return "[R%d]%s" % (max(0, self.nreq - 1 - rng.choice([0, 0, 0, 1, 2])), b)
-            if k < 0.85:
+            if k < 0.8 and self.rids:
+                return "[R%d]%s" % (self.rids[-1] if rng.random() < 0.8 else rng.choice(self.rids), b)
+            if k < 0.88:
                 return "%08x%s" % (rng.choice([0x80000000, 0xffffffff, 0x8abcdef0, 1, 0x7fffffff]), b)
-            if k < 0.93:
+            if k < 0.94:
                 return rng.choice(["-", "aa", "aabbcc"])
-            return words(rng, 1) + "[R%d]%s" % (max(0, self.nreq - 1), b)
+            return words(rng, 1) + "[R%d]%s" % (self.rids[-1] if self.rids else 0, b)
         if pr in ("rep0", "rep0_raw", "respondent0", "respondent0_raw", "req0_raw", "surveyor0_raw"):
             k = rng.random()
-            nw = rng.choice([0, 0, 0, 1, 2, self.ttl - 1, self.ttl, self.ttl + 1]) if k < 0.9 else rng.choice([14, 15, 16, 20])
+            nw = rng.choice([0, 0, 0, 1, 2, self.ttl - 1, self.ttl, self.ttl + 1]) if k < 0.3 else (rng.choice([14, 15, 16, 20]) if k < 0.35 else rng.choice([0, 0, 1]))
             nw = max(0, nw)
-            if rng.random() < 0.9:
+            if rng.random() < 0.93:
                 return words(rng, nw) + "%08x" % (0x80000000 | rng.randrange(1 << 31)) + b
-            return words(rng, min(nw, 3)) + rng.choice(["", "80ff", "0b"])  or "-"
+            return (words(rng, min(nw, 3)) + rng.choice(["", "80ff", "0b"])) or "-"
         if pr in ("pair1", "pair1_raw"):
             k = rng.random()
-            if k < 0.85:
+            if k < 0.88:
                 return "%08x%s" % (rng.choice([0, 1, 1, 2, self.ttl, max(self.ttl - 1, 0)]), b)
-            if k < 0.93:
+            if k < 0.95:
                 return "%08x%s" % (rng.choice([self.ttl + 1, 0xff, 0x100, 1 << 31]), b)
             return rng.choice(["-", "00", "000000"])
         if pr in ("sub0", "sub0_raw"):
@@ -151,129 +202,131 @@ class Gen:
             new = self.now + t
             if all(abs(new - d) >= 2000 for d in self.deadlines):
                 self.now = new
-                self.L.append("advance %d" % t)
+                self.emit("advance %d" % t)
                 return
-        self.L.append("poll")
+        self.emit("poll")
 
 
-def gen_case(rng, proto, density=None, nops=None):
-    g = Gen(rng, proto)
-    d, L = g.d, g.L
-    L.append("open s0 %s" % proto)
+def gen_case(rng, proto, sess, density=None, nops=None):
+    g = Gen(rng, proto, sess)
+    d = g.d
+    E = g.emit
+    E("open s0 %s" % proto)
     if density is None:
         density = rng.choice([0.25, 0.5, 1.0, 1.0])
-    # options before anything is connected
-    if proto in ("surveyor0",):
+    statey = proto in ("req0", "surveyor0", "rep0", "respondent0")     # a probe is a protocol step there
+    st = None
+    if proto == "surveyor0":
         st = rng.choice([5000, 60000, 60000])
-        L.append("setopt s0 surveyor:survey-time ms %d" % st)
-    else:
-        st = None
+        E("setopt s0 surveyor:survey-time ms %d" % st)
     resend = None
     if proto == "req0":
         resend = rng.choice([-1, -1, 5000, 60000])
-        L.append("setopt s0 req:resend-time ms %d" % resend)
+        E("setopt s0 req:resend-time ms %d" % resend)
+
+    def sent_one():
+        if proto == "surveyor0":
+            g.deadlines.append(g.now + st)
+        if proto == "req0" and resend and resend > 0:
+            g.deadlines.extend(g.now + resend * k for k in range(1, 6))
+
     for o in buf_opts(proto):
         if rng.random() < 0.5:
-            L.append("setopt s0 %s int %d" % (o, rng.choice(BUFS)))
-    if proto.startswith("sub0") and rng.random() < 0.9:
-        t = rng.choice(["", "61", "6162"]) if not d["raw"] else None
-        if t is not None:
-            L.append("setopt s0 topic sub %s" % (t or "-")); g.topics.append(t)
+            E("setopt s0 %s int %d" % (o, rng.choice(BUFS)))
+    if proto == "sub0" and rng.random() < 0.9:
+        E("setopt s0 topic sub %s" % rng.choice(["-", "61", "6162"]))
     if d["ctx"]:
         for _ in range(rng.choice([0, 0, 1, 2])):
             c = "c%d" % g.nctx; g.nctx += 1
-            L.append("ctx %s s0" % c); g.ctxs.append(c)
+            E("ctx %s s0" % c); g.ctxs.append(c)
             if proto == "sub0" and rng.random() < 0.8:
-                L.append("setopt %s topic sub %s" % (c, rng.choice(["-", "61", "62"])))
+                E("setopt %s topic sub %s" % (c, rng.choice(["-", "61", "62"])))
     n = nops if nops is not None else rng.randrange(6, 45)
-    send_tag = 0
+    # how eagerly the transport completes sends: lazy transports keep pipes busy and queues full
+    eager = rng.choice([0.05, 0.14, 0.14, 0.3])
     for _ in range(n):
         r = rng.random()
-        before = len(L)
+        before = len(g.L)
+        ops = g.open_pipes()
         if r < 0.10 and g.npipes < 4:
-            L.append("conn s0 %d" % (d["peer"] if rng.random() < 0.92 else rng.choice([d["peer"] ^ 1, 0, 65535])))
+            E("conn s0 %d" % (d["peer"] if rng.random() < 0.92 else rng.choice([d["peer"] ^ 1, 0, 65535])))
             g.npipes += 1
-        elif r < 0.30 and g.npipes:
-            p = rng.randrange(g.npipes)
-            L.append("inject p%d %s" % (p, g.wire() or "-"))
-        elif r < 0.44 and g.npipes:
-            L.append("sent p%d%s" % (rng.randrange(g.npipes), " 31" if rng.random() < 0.04 else ""))
-        elif r < 0.56:
+        elif r < 0.32 and ops:
+            # arrivals prefer busy pipes half of the time (a reply path that has to wait)
+            bp = g.busy_pipes()
+            p = rng.choice(bp) if (bp and rng.random() < 0.5) else rng.choice(ops)
+            E("inject p%d %s" % (p, g.wire() or "-"))
+        elif r < 0.32 + eager and g.npipes:
+            bp = g.busy_pipes()
+            p = rng.choice(bp) if (bp and rng.random() < 0.8) else rng.randrange(g.npipes)
+            E("sent p%d%s" % (p, " 31" if rng.random() < 0.04 else ""))
+        elif r < 0.58:
             t = g.tgt()
             h, b = g.send_args()
-            if rng.random() < 0.55 and g.naio < 58:
-                L.append("send %s %s %s %s" % (t, g.aio(), h, b))
+            if rng.random() < 0.5 and g.naio < 58:
+                E("send %s %s %s %s" % (t, g.aio(), h, b))
             else:
-                L.append("sendnb %s %s %s" % (t, h, b))
+                E("sendnb %s %s %s" % (t, h, b))
             if d["send"]:
-                g.nreq += 1
-                if proto == "surveyor0":
-                    g.deadlines.append(g.now + st)
-                if proto == "req0" and resend and resend > 0:
-                    g.deadlines += [g.now + resend * k for k in range(1, 6)]
-        elif r < 0.68:
+                sent_one()
+        elif r < 0.70:
             t = g.tgt()
             if rng.random() < 0.5 and g.naio < 58:
-                L.append("recv %s %s" % (t, g.aio()))
+                E("recv %s %s" % (t, g.aio()))
             else:
-                L.append("recvnb %s" % t)
-        elif r < 0.73 and g.npipes:
-            L.append("drop p%d" % rng.randrange(g.npipes))
-        elif r < 0.79 and g.naio:
-            L.append("cancel a%d" % rng.randrange(g.naio))
-        elif r < 0.87:
+                E("recvnb %s" % t)
+        elif r < 0.74 and ops:
+            E("drop p%d" % rng.choice(ops))
+        elif r < 0.80 and g.naio:
+            E("cancel a%d" % rng.randrange(g.naio))
+        elif r < 0.88:
             q = rng.random()
-            if q < 0.80 and buf_opts(proto):
-                L.append("setopt s0 %s int %d" % (rng.choice(buf_opts(proto)), rng.choice(BUFS + ([8193] if rng.random() < 0.05 else []))))
-            elif q < 0.90 and proto in ("pair1", "pair1_raw", "rep0", "rep0_raw", "respondent0", "respondent0_raw"):
+            if q < 0.70 and buf_opts(proto):
+                E("setopt s0 %s int %d" % (rng.choice(buf_opts(proto)), rng.choice(BUFS + ([8193] if rng.random() < 0.05 else []))))
+            elif q < 0.85 and proto in ("pair1", "pair1_raw", "rep0", "rep0_raw", "respondent0", "respondent0_raw"):
                 t = rng.choice([1, 2, 3, 8, 15])
-                L.append("setopt s0 ttl-max int %d" % t); g.ttl = t
+                E("setopt s0 ttl-max int %d" % t); g.ttl = t
             elif proto == "sub0":
                 t = g.tgt()
-                if rng.random() < 0.5:
-                    L.append("setopt %s topic sub %s" % (t, rng.choice(["-", "61", "6162", "62"])))
-                else:
-                    L.append("setopt %s topic unsub %s" % (t, rng.choice(["-", "61", "6162", "62"])))
+                E("setopt %s topic %s %s" % (t, rng.choice(["sub", "unsub"]), rng.choice(["-", "61", "6162", "62"])))
             else:
-                L.append("poll")
-        elif r < 0.91 and d["ctx"]:
+                E("poll")
+        elif r < 0.92 and d["ctx"]:
             if g.ctxs and rng.random() < 0.4:
                 c = g.ctxs.pop(rng.randrange(len(g.ctxs)))
-                L.append("ctxclose %s" % c)
+                E("ctxclose %s" % c)
             elif g.nctx < 6:
                 c = "c%d" % g.nctx; g.nctx += 1
-                L.append("ctx %s s0" % c); g.ctxs.append(c)
+                E("ctx %s s0" % c); g.ctxs.append(c)
                 if proto == "sub0" and rng.random() < 0.8:
-                    L.append("setopt %s topic sub %s" % (c, rng.choice(["-", "61", "62"])))
-        elif r < 0.95 and proto in ("req0", "surveyor0"):
+                    E("setopt %s topic sub %s" % (c, rng.choice(["-", "61", "62"])))
+        elif r < 0.96 and proto in ("req0", "surveyor0"):
             g.advance()
         else:
-            L.append("poll")
-        if len(L) == before:
-            L.append("poll")
-        # probes: the non-blocking operation each descriptor advertises, in either order
-        if rng.random() < density:
-            ps = []
-            if rng.random() < 0.8:
-                ps.append("r")
-            if rng.random() < 0.8:
-                ps.append("w")
-            rng.shuffle(ps)
-            for x in ps:
-                if x == "r":
-                    L.append("recvnb s0")
-                else:
-                    h, b = g.send_args()
-                    if proto == "pair1_raw" and rng.random() < 0.9:
-                        h = "00000001"
-                    L.append("sendnb s0 %s %s" % (h, "cc%04x" % g.nmsg))
-                    if d["send"]:
-                        g.nreq += 1
-                        if proto == "surveyor0":
-                            g.deadlines.append(g.now + st)
-                        if proto == "req0" and resend and resend > 0:
-                            g.deadlines += [g.now + resend * k for k in range(1, 6)]
-    return L
+            E("poll")
+        if len(g.L) == before:
+            E("poll")
+        # probes: the non-blocking operation each descriptor advertises.  A raised descriptor (as the model
+        # predicts it) is probed more often than a lowered one; on the sockets where a send / receive is a step of
+        # the protocol's state machine (REQ, REP, SURVEYOR, RESPONDENT) probes are rarer so that exchanges complete
+        fr, fw = g.fds()
+        ps = []
+        for x, fd in (("r", fr), ("w", fw)):
+            pr_ = density * (1.0 if fd == "1" else 0.5 if fd == "0" else 0.15)
+            if statey:
+                pr_ *= 0.5 if fd == "1" else 0.2
+            if rng.random() < pr_:
+                ps.append(x)
+        rng.shuffle(ps)
+        for x in ps:
+            if x == "r":
+                E("recvnb s0")
+            else:
+                h, b = g.send_args(valid=rng.random() < 0.9)
+                E("sendnb s0 %s %s" % (h, "cc%04x" % g.nmsg))
+                if d["send"]:
+                    sent_one()
+    return g.L
 
 
 # ---------------------------------------------------------------- the oracle (implementation's observations only)
@@ -316,9 +369,6 @@ def oracle(case, obs, raw, stats=None):
         if op in ("sendnb", "recvnb") and t[1] == "s0" and fds is not None:
             fd = fds[0] if op == "recvnb" else fds[1]
             rv = o["rv"]
-            what = "%s fd=%s rv=%s" % ("recv" if op == "recvnb" else "send", fd, ERRNAME.get(rv, rv))
-            if stats is not None:
-                stats.probe(proto, what)
             dirn = "receive" if op == "recvnb" else "send"
             if fd == "x":
                 if rv != 9:
@@ -329,6 +379,10 @@ def oracle(case, obs, raw, stats=None):
                     key = KEY_BUS
                 if proto == "respondent0" and op == "sendnb":
                     key = KEY_RESP
+                if proto == "rep0" and op == "sendnb":
+                    key = KEY_REP
+                if proto == "req0_raw" and op == "sendnb":
+                    key = KEY_MSGQ
                 return (k, "%s descriptor polls readable but the NONBLOCK %s returned NNG_EAGAIN (busy loop)" % (dirn, dirn), key)
             elif fd == "0" and rv == 0:
                 return (k, "NONBLOCK %s succeeded although the %s descriptor did not poll readable (missed wake-up)" % (dirn, dirn))
@@ -345,10 +399,8 @@ def oracle(case, obs, raw, stats=None):
             fd = fds[0] if op == "recv" else fds[1]
             done = [x for x in o["done"] if x[0] == a]
             dirn = "receive" if op == "recv" else "send"
-            if stats is not None:
-                stats.probe(proto, "blocking-%s fd=%s %s" % (op, fd, ("rv=%s" % ERRNAME.get(done[0][1], done[0][1])) if done else "queued"))
             if fd == "1" and not done:
-                key = None
+                key = KEY_REP if (proto == "rep0" and op == "send") else KEY_MSGQ if (proto == "req0_raw" and op == "send") else None
                 return (k, "%s descriptor polls readable but a %s had to wait (the NONBLOCK form would return NNG_EAGAIN)" % (dirn, dirn), key)
             if fd == "0" and done and done[0][1] == 0:
                 key = KEY_RESP if (proto == "respondent0" and op == "send") else None
@@ -356,10 +408,6 @@ def oracle(case, obs, raw, stats=None):
         for a, rv, extra in o["done"]:
             if extra == "LOST":
                 return (k, "a failed send did not leave the message with the caller")
-        if stats is not None and o["poll"].get(0) is not None:
-            stats.state(proto, "".join(o["poll"][0]))
-            if prev is not None and prev["poll"].get(0) is not None and prev["poll"][0] != o["poll"][0]:
-                stats.trans[proto] = stats.trans.get(proto, 0) + 1
         prev = o
     return None
 
@@ -375,7 +423,34 @@ def judge(case, lines, stats):
     parsed = [parse_line(x) for x in lines]
     if any("NOT-QUIESCENT" in x for x in lines):
         return (0, "library did not become quiescent within 10 s")
+    if stats is not None:
+        collect(case, parsed, stats)
     return oracle_known_aware(case, parsed, stats)
+
+
+def collect(case, parsed, stats):
+    """descriptor states at every quiescent point and the outcome of every socket-level operation against them"""
+    proto = case[0].split()[2]
+    prev = None
+    for k, line in enumerate(case):
+        o = parsed[k] if k < len(parsed) else None
+        if o is None:
+            break
+        t = line.split()
+        fds = prev["poll"].get(0) if prev else None
+        if t[0] in ("sendnb", "recvnb") and t[1] == "s0" and fds is not None:
+            fd = fds[0] if t[0] == "recvnb" else fds[1]
+            stats.probe(proto, "%s fd=%s rv=%s" % ("recv" if t[0] == "recvnb" else "send", fd, ERRNAME.get(o["rv"], o["rv"])))
+        if t[0] in ("send", "recv") and t[1] == "s0" and o["rv"] == 0 and fds is not None:
+            a = int(t[2][1:])
+            fd = fds[0] if t[0] == "recv" else fds[1]
+            done = [x for x in o["done"] if x[0] == a]
+            stats.probe(proto, "blocking-%s fd=%s %s" % (t[0], fd, ("rv=%s" % ERRNAME.get(done[0][1], done[0][1])) if done else "queued"))
+        if o["poll"].get(0) is not None:
+            stats.state(proto, "".join(o["poll"][0]))
+            if prev is not None and prev["poll"].get(0) is not None and prev["poll"][0] != o["poll"][0]:
+                stats.trans[proto] = stats.trans.get(proto, 0) + 1
+        prev = o
 
 
 def oracle_known_aware(case, parsed, stats):
@@ -445,6 +520,9 @@ def run(tier, seed, replay=None):
             rep.known.setdefault(key, "(assumed known: C15_ASSUME_KNOWN) " + KNOWN_TEXT.get(key, key))
     global STATS
     STATS = Stats()
+    for f in os.listdir(rep.outdir):
+        if f.endswith(".case") or f.endswith(".txt"):
+            os.remove(os.path.join(rep.outdir, f))
     proof_ok, cb, bdir, why = std_prelude(rep, "C15", "Properties_C15", "c15", drivers=("c15",))
     if bdir is None:
         return rep.finish()
@@ -465,16 +543,18 @@ def run(tier, seed, replay=None):
         cases = [[l.strip() for l in open(replay) if l.strip() and not l.startswith("#")]]
         by_proto = {cases[0][0].split()[2]: cases}
     else:
-        per = 40 if tier == "quick" else 1500
+        per = int(os.environ.get("C15_PER", "0")) or (40 if tier == "quick" else 1500)
         by_proto = {}
         for c in load_corpus("C15"):
             by_proto.setdefault(c[0].split()[2], []).append(c)
+        sess = Session(model)
         for pr in protos:
             n = per // 3 if pr in ALIAS else per
             r2 = random.Random(rng.randrange(1 << 30))
             by_proto.setdefault(pr, [])
             for i in range(n):
-                by_proto[pr].append(gen_case(r2, pr))
+                by_proto[pr].append(gen_case(r2, pr, sess))
+        sess.close()
     # batches, run on at most 6 driver pairs at a time
     B = 40 if tier == "quick" else 100
     jobs = []
